@@ -374,7 +374,7 @@ Qed.
 
 (* DATA-RACE FREEDOM ON THE GAS FIELDS (model level): for every function type of the current sources that has an
    execution lock, any number of threads calling ProcessBuiltinFunction and SetNewGasConfig of ONE object, in
-   any interleaving the lock admits, never have a write of a gas field enabled together with any other access *)
+   any interleaving the lock allows, never have a write of a gas field enabled together with any other access *)
 Theorem gas_fields_race_free :
   forall e, In e exec_types -> has_mutex e = true ->
   forall l s t t' f w' f',
